@@ -78,6 +78,8 @@ FAMS_QUICK = "table:600,rv:24,so2:12,so3:12,se2:12,se3:10,css:10"
 FAMS_THOROUGH = "table:8000,rv:300,so2:150,so3:150,se2:150,se3:120,css:120"
 
 SPACE_STAGES = {
+    "C03": [("interp:spacing", ["interp"], False, False)],
+    "C05": [("interp:steer", ["interp"], False, False)],
     "C04": [("interp:convexity", ["interp"], False, False)],
     "C09": [("metric", ["metric"], True, False), ("metric:malformed", ["metric"], False, True)],
     "C10": [("interp", ["interp"], True, False), ("interp:malformed", ["interp"], False, True)],
@@ -100,7 +102,11 @@ def stages(pid, tier, seed, replay):
     common = os.path.join(ROOT, "corpus", "planners.txt")
     for f in (corpus, common):
         if os.path.exists(f):
-            st.append({"name": "corpus:" + os.path.basename(f), "kind": "planners", "args": ["--cases-file", f]})
+            cst = {"name": "corpus:" + os.path.basename(f), "kind": "planners", "args": ["--cases-file", f]}
+            if pid in ("C19", "C20") and f == corpus:
+                cst["py"] = "planners" if pid == "C19" else "faults"
+                cst["args"] += ["--threads", "8"] + (["--faults"] if pid == "C20" else [])
+            st.append(cst)
     if pid in SPACE_STAGES:
         for name, fams_, ref, malformed in SPACE_STAGES[pid]:
             count = (500 if tier == "quick" else 6000) // (3 if malformed else 1)
